@@ -61,6 +61,8 @@ func vh_C11_server_nextHandle() {
 }
 
 func vh_C11_server_closeHandle() {
+	vCloseMayFail, vTape = true, nil
+	vEnvReset()
 	svr := vNewServer(false, "")
 	fs := vTable(svr)
 	before := len(svr.openFiles)
@@ -68,7 +70,7 @@ func vh_C11_server_closeHandle() {
 	target, was := svr.openFiles[h]
 	err := svr.closeHandle(h)
 	if was {
-		vAssert(err == nil && len(svr.openFiles) == before-1, "named entry removed")
+		vAssert(len(svr.openFiles) == before-1, "named entry removed (whatever Close reports)")
 		_, still := svr.getHandle(h)
 		vAssert(!still, "handle is dead after close")
 		vAssert(target.(*vMFile).closed == 1, "closed exactly once")
@@ -210,6 +212,8 @@ func vRSTable2(rs *RequestServer) []*vHObj {
 }
 
 func vh_C11_rs_next_close() {
+	vCloseMayFail, vTape = true, nil
+	vEnvReset()
 	vHReset()
 	rs := vNewRequestServer(Handlers{vH{}, vH{}, vH{}, vH{}}, "/")
 	objs := vRSTable(rs)
@@ -225,7 +229,7 @@ func vh_C11_rs_next_close() {
 		closedTotal += o.closed
 	}
 	if was && target != nr {
-		vAssert(err == nil, "close of an open handle succeeds")
+		_ = err // Close's own error is passed on; the handle dies all the same
 		_, still := rs.getRequest(x)
 		vAssert(!still, "handle is dead after close")
 		vAssert(closedTotal == 1, "exactly the named request's object closed, once")
